@@ -171,8 +171,8 @@ func (sc *L1Scenario) trackAllClaims() {
 type MoneyStream struct {
 	Prop     string
 	Weights  L1Weights
-	NRandom  [2]int // random cases per tier
-	Len      [2]int // random steps per case
+	NRandom  [2]int                           // random cases per tier
+	Len      [2]int                           // random steps per case
 	Scripts  []func(sc *L1Scenario, tier int) // every script is run NScript times per tier (different seeds)
 	NScript  [2]int
 	Widen    func(tr *L1Track)
